@@ -1,13 +1,123 @@
 package c09
 
 import (
+	"fmt"
+	"strings"
 	"testing"
 
+	"github.com/php-any/origami/data"
 	"github.com/php-any/origami/verifharness/hx"
+	"github.com/php-any/origami/verifsim"
 )
 
+// script builds the level-L2 program: the same workload as L1, but expressed
+// as an origami script that spawns producers, consumers, closers and observers
+// over `new Channel(cap)`. Operations are reported through the registered Go
+// functions __b(task, kind, arg) / __e(task, ret), never through a second channel.
+func script(w *W) string {
+	var b strings.Builder
+	b.WriteString("<?php\n")
+	fmt.Fprintf(&b, "$ch = new Channel(%d);\n", w.Cap)
+	id := 0
+	nap := func(id int) string {
+		if w.SleepMask&(1<<uint(id)) != 0 {
+			return "  sleep(1);\n"
+		}
+		return ""
+	}
+	closerBase := len(w.Producers) + len(w.Consumers)
+	closers := func(indent string) string {
+		var c strings.Builder
+		for k := 0; k < w.Closers; k++ {
+			fmt.Fprintf(&c, "%sspawn(function() use ($ch) {\n%s%s  __b(%d, \"close\", \"\");\n%s  $ch->close();\n%s  __e(%d, \"ok\");\n%s});\n",
+				indent, nap(closerBase+k), indent, closerBase+k, indent, indent, closerBase+k, indent)
+		}
+		return c.String()
+	}
+	for p, n := range w.Producers {
+		fmt.Fprintf(&b, "spawn(function() use ($ch) {\n%s", nap(id))
+		for k := 0; k < n; k++ {
+			fmt.Fprintf(&b, "  __b(%d, \"send\", \"p%d-%d\");\n  $r = $ch->send(\"p%d-%d\");\n  __e(%d, $r);\n", id, p, k, p, k, id)
+		}
+		if w.CloseAfter && w.Closers > 0 {
+			fmt.Fprintf(&b, "  if (__producer_done()) {\n%s  }\n", closers("    "))
+		}
+		b.WriteString("});\n")
+		id++
+	}
+	for _, n := range w.Consumers {
+		fmt.Fprintf(&b, "spawn(function() use ($ch) {\n%s", nap(id))
+		if n < 0 {
+			fmt.Fprintf(&b, "  while (true) {\n    __b(%d, \"recv\", \"\");\n    $v = $ch->receive();\n    __e(%d, $v);\n    if ($v === null) { break; }\n  }\n", id, id)
+		} else {
+			fmt.Fprintf(&b, "  for ($i = 0; $i < %d; $i++) {\n    __b(%d, \"recv\", \"\");\n    $v = $ch->receive();\n    __e(%d, $v);\n  }\n", n, id, id)
+		}
+		b.WriteString("});\n")
+		id++
+	}
+	if !w.CloseAfter {
+		b.WriteString(closers(""))
+	}
+	id = closerBase + w.Closers
+	for o := 0; o < w.Observers; o++ {
+		fmt.Fprintf(&b, "spawn(function() use ($ch) {\n  for ($i = 0; $i < 3; $i++) {\n    __b(%d, \"isclosed\", \"\");\n    $c = $ch->isClosed();\n    __e(%d, $c);\n    __b(%d, \"len\", \"\");\n    $l = $ch->len();\n    $k = $ch->cap();\n    __e(%d, $l);\n  }\n});\n", id, id, id, id)
+		id++
+	}
+	return b.String()
+}
+
 func execScript(t *testing.T, w *W, s hx.Sched) *hx.Outcome {
-	c := *w
-	c.Level = "L1"
-	return exec(t, &c, s)
+	o := &hx.Outcome{}
+	ntasks := len(w.Producers) + len(w.Consumers) + w.Closers + w.Observers
+	h := &hist{ops: make([][]op, ntasks)}
+	cur := make([]int, ntasks)
+	src := script(w)
+	producersLeft := len(w.Producers)
+	var env *hx.Env
+	var mainCtl string
+	res := hx.RunBubble(t, s.Config(0), func(sim *verifsim.Sim) {
+		env = hx.NewEnv()
+		restore := env.Capture()
+		_ = restore
+		env.VM.AddFunc(&hx.GoFunc{Name: "__b", Params: []string{"task", "kind", "arg"}, Fn: func(ctx data.Context, a []data.Value) (data.GetValue, data.Control) {
+			id := atoi(hx.ValStr(a[0]))
+			cur[id] = h.begin(id, hx.ValStr(a[1]), hx.ValStr(a[2]))
+			return data.NewNullValue(), nil
+		}})
+		env.VM.AddFunc(&hx.GoFunc{Name: "__e", Params: []string{"task", "ret"}, Fn: func(ctx data.Context, a []data.Value) (data.GetValue, data.Control) {
+			id := atoi(hx.ValStr(a[0]))
+			h.end(id, cur[id], hx.ValStr(a[1]))
+			return data.NewNullValue(), nil
+		}})
+		env.VM.AddFunc(&hx.GoFunc{Name: "__producer_done", Params: []string{}, Fn: func(ctx data.Context, a []data.Value) (data.GetValue, data.Control) {
+			producersLeft--
+			return data.NewBoolValue(producersLeft == 0), nil
+		}})
+		sim.Spawn("main", func() {
+			_, _, ctl := env.Run(src, "/verif/c09.php")
+			if ctl != nil {
+				mainCtl = hx.CtlStr(ctl)
+			}
+		})
+	})
+	data.ResetOutputWriter()
+	o.Res = res
+	evaluate(o, w, h.all(), res)
+	if sm, ok := o.Sample.(map[string]any); ok {
+		sm["script"] = src
+	}
+	if mainCtl != "" {
+		o.Violate("C09/script-error", "main script ended with: "+mainCtl)
+	}
+	for _, th := range env.Throws {
+		o.Violate("C09/uncaught-throw", "a spawned closure ended with an uncaught throw: "+th)
+	}
+	o.Hash = verifsim.Mix(o.Hash, hx.HashStrings(env.Throws...))
+	return o
+}
+
+func atoi(s string) int {
+	n := 0
+	fmt.Sscan(s, &n)
+	return n
 }
